@@ -168,6 +168,32 @@ func c19Creds() ([]c19Cred, error) {
 		forged = append(forged, c19Cred{Name: "a session ticket minted by the caller's own endpoint under a guessable ticket key (" + guess + ") for a session with a certificate from another authority CN=client-test01",
 			Dial: c19ForgedTicketDial(foreign, foreignCA, foreignKey, guess)})
 	}
+	// Certificates of the caller's own making whose validity period is not now: lapsed an hour ago, lapsed three days
+	// ago, beginning in an hour (verification code of one's own meets the validity check before the chain check).
+	for _, w := range []struct {
+		name      string
+		from, to  time.Duration
+		foreignCA bool
+	}{
+		{"self-signed certificate CN=client-test01 that lapsed an hour ago", -48 * time.Hour, -time.Hour, false},
+		{"self-signed certificate CN=client-test01 that lapsed three days ago", -30 * 24 * time.Hour, -72 * time.Hour, false},
+		{"self-signed certificate CN=client-test01 that becomes valid in an hour", time.Hour, 48 * time.Hour, false},
+		{"certificate from another authority CN=client-test01 that lapsed an hour ago", -48 * time.Hour, -time.Hour, true},
+	} {
+		o := c19MintOpts{Subject: pkix.Name{CommonName: "client-test01"}, DNS: []string{"client-test01"}, NotBefore: time.Now().Add(w.from), NotAfter: time.Now().Add(w.to)}
+		if w.foreignCA {
+			o.Parent, o.SignKey = foreignCA, foreignKey
+		}
+		_, _, crt, key, err := c19Mint(o)
+		if err != nil {
+			return nil, err
+		}
+		tc, err := tls.X509KeyPair(crt, key)
+		if err != nil {
+			return nil, err
+		}
+		forged = append(forged, c19Cred{Name: w.name, Dial: tlsDial([]tls.Certificate{tc})})
+	}
 	return append(forged, []c19Cred{
 		{Name: "valid client-test02 followed by an unverified non-CA certificate CN=client-test01", Valid: true, CN: "client-test02", Dial: tlsDial(trailing("client-test01", false))},
 		{Name: "valid client-test02 followed by an unverified CA-flagged certificate CN=client-test01", Valid: true, CN: "client-test02", Dial: tlsDial(trailing("client-test01", true))},
@@ -271,6 +297,8 @@ type c19MintOpts struct {
 	Parent   *x509.Certificate
 	SignKey  *ecdsa.PrivateKey
 	NotAfter time.Time
+	// NotBefore (optional) with NotAfter: the validity period.
+	NotBefore time.Time
 }
 
 func c19Mint(o c19MintOpts) (*x509.Certificate, *ecdsa.PrivateKey, []byte, []byte, error) {
@@ -290,6 +318,12 @@ func c19Mint(o c19MintOpts) (*x509.Certificate, *ecdsa.PrivateKey, []byte, []byt
 	}
 	if o.IsCA {
 		tmpl.KeyUsage |= x509.KeyUsageCertSign
+	}
+	if !o.NotBefore.IsZero() {
+		tmpl.NotBefore = o.NotBefore
+	}
+	if !o.NotAfter.IsZero() {
+		tmpl.NotAfter = o.NotAfter
 	}
 	parent, signKey := tmpl, key
 	if o.Parent != nil {
